@@ -101,6 +101,9 @@ func directCorpus() []*directInput {
 		// F6b: a modifier that changes nothing, on a contact whose stored membership is wrong
 		{Universe: simpleUniverse, Contact: &contactSpec{Name: "Jim", Lang: "eng", Status: "active", Groups: []int{3}, Fields: map[string]string{}}, Modifier: &modSpec{Kind: "name", Text: "Jim"}},
 		{Universe: simpleUniverse, Contact: bob("active", nil, nil), Modifier: &modSpec{Kind: "language", Text: "eng"}},
+		// a group reference repeated in the stored contact (F6c, fixed by 595be89): Remove deleted one entry only
+		{Universe: simpleUniverse, Contact: &contactSpec{Name: "Jim", Lang: "eng", Status: "active", Groups: []int{3, 3, 0, 0}, Fields: map[string]string{}}, Modifier: &modSpec{Kind: "language", Text: "fra"}},
+		{Universe: simpleUniverse, Contact: &contactSpec{Name: "Jim", Lang: "eng", Status: "active", Groups: []int{0, 1, 0}, Fields: map[string]string{}}, Modifier: &modSpec{Kind: "groups", Mode: "remove", Groups: []int{0}}},
 		// a blocked contact leaves its static groups
 		{Universe: simpleUniverse, Contact: bob("active", []string{tel}, []int{0, 1, 3}), Modifier: &modSpec{Kind: "status", Text: "blocked"}},
 		{Universe: simpleUniverse, Contact: bob("stopped", []string{tel}, nil), Modifier: &modSpec{Kind: "status", Text: "active"}},
@@ -129,11 +132,13 @@ func main() {
 	uuidSeed = int64(o.Seed)
 	dates.SetNowFunc(dates.NewFixedNow(fixedNow))
 	res := hx.NewResult(o, "corpus of formerly failing inputs first; then (direct) random contact x random modifier of all nine kinds in random "+
-		"universes (3 static + 0-5 query groups, MaxFieldChars in {640,12,8,5,1}), each applied twice; then (sprint) generated flows of "+
-		"contact-modifying actions run through the real engine with manual/msg triggers and msg resumes with/without refreshed contact. "+
-		"distinct = distinct (universe, contact, modifier) resp. (universe, contact, flow, history); non-trivial = the modifier changed the "+
-		"contact, or was a no-op on a contact where it could have applied (reported separately in the distribution); for sprints: at "+
-		"least one contact-writing step ran")
+		"universes (3 static + 0-5 query groups incl. queries outside the model's fragment, MaxFieldChars in {640,12,8,5,1}; stored membership "+
+		"right in 2/3 of the contacts and arbitrary otherwise, occasionally with a repeated group reference), each applied twice; then (sprint) "+
+		"generated linear flows of 0-5 nodes with 0-3 contact-changing actions each and msg waits (with/without timeout), run through the real "+
+		"engine with manual/msg triggers and msg / wait-timeout / run-expiration resumes carrying no contact, the same contact, a random contact "+
+		"or the session contact with exactly one member changed; one case per engine call. distinct = distinct (universe, contact, modifier) "+
+		"resp. (universe, contact, flow, history, call); non-trivial = (direct) the modifier changed the contact or was a no-op on a contact "+
+		"where it could have applied (reported separately in the distribution); (sprint) at least one contact-writing action or contact event")
 	r := hx.NewRand(o.Seed)
 	shM := &sharder{o: o, res: res, prefix: "direct", header: headerM, mism: "mismatches_m", shard: 250}
 	shS := &sharder{o: o, res: res, prefix: "sprint", header: headerS, mism: "mismatches_s", shard: 150}
@@ -177,7 +182,7 @@ func main() {
 		}
 	}
 
-	nDirect := o.Count(1300, 20000)
+	nDirect := o.Count(1150, 20000)
 	rd := r.Fork("direct")
 	var uni *uniSpec
 	for i := 0; i < nDirect; i++ {
